@@ -121,7 +121,10 @@ def _innermost(py, lineno, col):
                             nxt = (c, f"{type(node).__name__}.{f}")
                             break
                     continue
-                if (ln, c.col_offset) <= (lineno, col) < (c.end_lineno, c.end_col_offset):
+                start = (ln, c.col_offset)
+                for dec in getattr(c, "decorator_list", []):
+                    start = min(start, (dec.lineno, 0))  # decorators precede the def line
+                if start <= (lineno, col) < (c.end_lineno, c.end_col_offset):
                     nxt = (c, f"{type(node).__name__}.{f}")
         if nxt is None:
             return best
@@ -230,6 +233,15 @@ def compare_trees(py, sc, out, src, prefix="", star_wrapping=True):
         ln = d.lineno or 1
         head = soft_head(py, lines, ln) if isinstance(py, ast.Module) else None
         cell = f"soft-keyword-head:{head}" if head else d.cell
+        if not head and (d.field.startswith("type->") or (d.nodetype, d.field) == ("Name", "id")) \
+                and d.col is not None \
+                and 0 < ln <= len(lines):
+            # a Python expression beginning with a Scenic soft keyword used as an identifier and
+            # parsed as a Scenic operator instead (the ambiguity docs/reference/general.rst
+            # warns about): named as such
+            m = re.match(r"(?:not\s+)?([A-Za-z_]\w*)", lines[ln - 1][d.col:])
+            if m and m.group(1) in SOFT_KEYWORDS and m.group(1) not in ("not", "_"):
+                cell = f"soft-keyword-as-identifier:{m.group(1)}"
         sig = f"{prefix}{cell}|{d.field}"
         if sig in seen:
             continue
@@ -512,9 +524,20 @@ def _find_marked(tree):
             and isinstance(n.func, ast.Name) and n.func.id == MARK and len(n.args) == 1]
 
 
-def _find_span(tree, ref):
+def _char_columns(ref, src):
+    lines = src.split("\n")
+
+    def conv(ln, col):
+        raw = lines[ln - 1].encode("utf-8")
+        return len(raw[:col].decode("utf-8", "ignore"))
+
+    return (ref.lineno, conv(ref.lineno, ref.col_offset), ref.end_lineno,
+            conv(ref.end_lineno, ref.end_col_offset))
+
+
+def _find_span(tree, ref, want=None):
     """Nodes of the compiled tree with exactly the reference's source span, deepest first."""
-    want = tuple(getattr(ref, a) for a in D.ATTRS)
+    want = want or tuple(getattr(ref, a) for a in D.ATTRS)
     hits = []
     stack = [(tree, 0)]
     while stack:
@@ -594,10 +617,16 @@ def judge_fragment(case):
             compare_trees(ref, h.args[0], tmp, src, prefix="frag:", star_wrapping=star)
     else:
         cands = _find_span(res, ref)
+        if not cands and not src.isascii():
+            # columns after non-ASCII text are known to be counted in characters: look for the
+            # fragment at the span that defect model predicts; the comparison then reports the
+            # column difference under its own signature
+            cands = _find_span(res, ref, _char_columns(ref, src))
         if not cands:
             tmp.fail(f"frag:{ctx}|fragment-not-found-at-its-span",
                      expected_span=[getattr(ref, a) for a in D.ATTRS])
         best = None
+        cands.sort(key=lambda c: type(c) is not type(ref))  # stable: same-type nodes first
         for c in cands:
             t2 = core.Outcome()
             compare_trees(ref, c, t2, src, prefix="frag:", star_wrapping=star)
